@@ -62,8 +62,10 @@ def random_gf2_history(rng, R, D, length, skewed=False, pool=None):
     for _ in range(length):
         op = rng.choice(ops)
         d, a, b = rng.randrange(R), rng.randrange(R), rng.randrange(R)
-        if op in ('Move', 'MoveAssign', 'Swap') and a == d:
+        if op == 'Move' and a == d:            # (self move ASSIGNMENT and swap(a, a) are legal histories and keep the value)
             a = (d + 1) % R
+        if op in ('MoveAssign', 'Swap', 'Assign', 'PlusAssign') and rng.random() < 0.15:
+            a = d
         if op == 'Unit':
             a = dom[rng.randrange(D)]
         s = sorted(rng.sample(dom, sz() if skewed else rng.randint(0, min(D, 7)))) if op in ('FromSet', 'DotSet') else []
@@ -182,6 +184,10 @@ def random_fp_history(rng, T, p, R, D, length, kmax=50, long_vectors=False, pool
             a = dom[rng.randrange(D)]
         if op in ('Scale', 'ScaleAssign'):
             k = rng.choice([0, 1, -1, p, -p, 2 * p, rng.randint(-kmax, kmax), rng.randint(-kmax, kmax)])
+        if op in ('Assign', 'Plus', 'Scale') and R >= 3 and rng.random() < 0.2:
+            # into a default-constructed destination (SpVecFP<P> r; r = a + b;): the modulus must come along
+            a, b = (d + 1) % R, (d + 1 + rng.randrange(2)) % R
+            op += 'F'
         lines.append('FP %s %d %d %d %d' % (op, d, a, b, k))
     return lines
 
